@@ -156,6 +156,16 @@ class World:
             c.close()
         self.clients = {}
 
+    def fresh_connection_served(self):
+        try:
+            c = wire.Client(self.srv.port, tls=self.tls, timeout=3.0)
+            c.send("PING fresh")
+            c.read_until(lambda m: m.verb in ("451", "PONG"), 3.0)
+            c.close()
+            return True
+        except (wire.Closed, wire.Timeout, OSError):
+            return False
+
     def owned_nicks(self):
         return {n for n, cid in self.model.owner.items() if cid in self.clients
                 and not self.clients[cid].eof}
@@ -278,7 +288,23 @@ class World:
                 actor_closed = ex.kind
                 lines = ex.lines
             except wire.Timeout as ex:
-                raise Inconclusive("no PONG after %r (%d lines)" % (line, len(getattr(ex, "lines", []))))
+                got = getattr(ex, "lines", [])
+                if any(m.verb == "451" for m in got):
+                    # the server answered - but treats a registered client as unregistered
+                    self.violate("registered-client-gated", exp.props | {"C03", "C05"}, exp.shape,
+                                 "after %r the registered client %s is answered 451: %s"
+                                 % (line, self.model.conn.get(cid, {}).get("nick"), [m.raw for m in got][:3]))
+                    self.dead = True
+                    return self.violations[-1:]
+                if self.fresh_connection_served():
+                    # the process serves a new connection at once while this one got no answer for the whole
+                    # watchdog period: that connection is stalled, not the machine
+                    self.violate("connection-stalled", exp.props | {"C05", "C18"}, exp.shape,
+                                 "no answer for %.0f s after %r on connection %s although a fresh connection is "
+                                 "served immediately (%d lines received)" % (self.watchdog, line, cid, len(got)))
+                    self.dead = True
+                    return self.violations[-1:]
+                raise Inconclusive("no PONG after %r (%d lines)" % (line, len(got)))
         return self.finish_step(cid, exp, lines, pre, actor_closed)
 
     def act_die(self, cid, cmd):
